@@ -228,6 +228,9 @@ def check(ix, rep):
             rep.ok('R-GRID', kf.module.rel, kf.qual, slot, '%d extracted influence interval forms, restricted to the grid, are the index window [%r, %r]; filler = fill = neutral of %s'
                    % (nchecked, lo, hi, rop), kf.node.lineno)
     rep.floor('bounded operators compared on the grid', nb, 4)
+    from sa.rules import truthy as _truthy
+    nex = _truthy.check_exact_comparisons(ix, rep)
+    rep.floor('modules scanned for comparisons up to a tolerance', nex, 100)
     # a dense result that loses its first sample is undefined at grid point 0 (and wherever an enclosing operator reads it)
     allf = list(mm.functions.values()) + [g for c in mm.classes.values() for g in c.methods.values()]
     nfs = densesum.check_first_sample(ix, rep, allf, 'dense-offline')
